@@ -80,6 +80,88 @@ class Engine:
         self.fresh_n = 0
         self.notes = []
         self.shrink = []  # extra constraints tried when a counterexample is found, to get a small replayable model
+        self.ivl = {}  # variable id -> [lo, hi] implied by assumptions of the form var <cmp> numeral (fast path)
+        self.fast_decisions = 0
+
+    @staticmethod
+    def _atom(t):
+        k = t.decl().kind()
+        return z3.is_int(t) and ((z3.is_const(t) and k == z3.Z3_OP_UNINTERPRETED) or k in (z3.Z3_OP_BV2INT, getattr(z3, "Z3_OP_UBV2INT", -1)))
+
+    # ---- interval fast path: decides comparisons of a plain variable with a numeral without a solver call.
+    # Sound: the interval of a variable is implied by the path condition, a decision is only taken when implied.
+    def _ivl_learn(self, c, positive=True):
+        k = c.decl().kind()
+        if positive and k == z3.Z3_OP_AND:
+            for a in c.children():
+                self._ivl_learn(a, True)
+            return
+        if k == z3.Z3_OP_NOT:
+            self._ivl_learn(c.arg(0), not positive)
+            return
+        if k in (z3.Z3_OP_LE, z3.Z3_OP_GE, z3.Z3_OP_LT, z3.Z3_OP_GT, z3.Z3_OP_EQ) and c.num_args() == 2:
+            a, b = c.arg(0), c.arg(1)
+            if z3.is_int_value(a) and self._atom(b):
+                a, b = b, a
+                k = {z3.Z3_OP_LE: z3.Z3_OP_GE, z3.Z3_OP_GE: z3.Z3_OP_LE, z3.Z3_OP_LT: z3.Z3_OP_GT, z3.Z3_OP_GT: z3.Z3_OP_LT}.get(k, k)
+            if not (self._atom(a) and z3.is_int_value(b)):
+                return
+            v = b.as_long()
+            if not positive:
+                if k == z3.Z3_OP_EQ:
+                    return
+                k = {z3.Z3_OP_LE: z3.Z3_OP_GT, z3.Z3_OP_GE: z3.Z3_OP_LT, z3.Z3_OP_LT: z3.Z3_OP_GE, z3.Z3_OP_GT: z3.Z3_OP_LE}[k]
+            lo, hi = self.ivl.get(a.get_id(), (None, None))
+            if k == z3.Z3_OP_LE:
+                hi = v if hi is None else min(hi, v)
+            elif k == z3.Z3_OP_LT:
+                hi = v - 1 if hi is None else min(hi, v - 1)
+            elif k == z3.Z3_OP_GE:
+                lo = v if lo is None else max(lo, v)
+            elif k == z3.Z3_OP_GT:
+                lo = v + 1 if lo is None else max(lo, v + 1)
+            elif k == z3.Z3_OP_EQ:
+                lo = v if lo is None else max(lo, v)
+                hi = v if hi is None else min(hi, v)
+            self.ivl[a.get_id()] = (lo, hi)
+            self._keep = getattr(self, "_keep", [])
+            self._keep.append(a)
+
+    def _ivl_decide(self, c):
+        k = c.decl().kind()
+        if k == z3.Z3_OP_NOT:
+            r = self._ivl_decide(c.arg(0))
+            return None if r is None else (not r)
+        if k not in (z3.Z3_OP_LE, z3.Z3_OP_GE, z3.Z3_OP_LT, z3.Z3_OP_GT, z3.Z3_OP_EQ, z3.Z3_OP_DISTINCT) or c.num_args() != 2:
+            return None
+        a, b = c.arg(0), c.arg(1)
+        if z3.is_int_value(a) and self._atom(b):
+            a, b = b, a
+            k = {z3.Z3_OP_LE: z3.Z3_OP_GE, z3.Z3_OP_GE: z3.Z3_OP_LE, z3.Z3_OP_LT: z3.Z3_OP_GT, z3.Z3_OP_GT: z3.Z3_OP_LT}.get(k, k)
+        if not (self._atom(a) and z3.is_int_value(b)):
+            return None
+        iv = self.ivl.get(a.get_id())
+        if iv is None:
+            return None
+        lo, hi = iv
+        v = b.as_long()
+        if k == z3.Z3_OP_LE:
+            return True if hi is not None and hi <= v else False if lo is not None and lo > v else None
+        if k == z3.Z3_OP_LT:
+            return True if hi is not None and hi < v else False if lo is not None and lo >= v else None
+        if k == z3.Z3_OP_GE:
+            return True if lo is not None and lo >= v else False if hi is not None and hi < v else None
+        if k == z3.Z3_OP_GT:
+            return True if lo is not None and lo > v else False if hi is not None and hi <= v else None
+        if k == z3.Z3_OP_EQ:
+            if (lo is not None and v < lo) or (hi is not None and v > hi):
+                return False
+            return True if lo == hi == v else None
+        if k == z3.Z3_OP_DISTINCT:
+            if (lo is not None and v < lo) or (hi is not None and v > hi):
+                return True
+            return False if lo == hi == v else None
+        return None
 
     # ---- path state
     def start_path(self, prefix):
@@ -90,6 +172,7 @@ class Engine:
         self.fresh_n = 0
         self.notes = []
         self.shrink = []
+        self.ivl = {}
         self.solver.push()
 
     def end_path(self):
@@ -104,6 +187,10 @@ class Engine:
             c = z3.BoolVal(False)
         self.pc.append(c)
         self.solver.add(c)
+        try:
+            self._ivl_learn(c)
+        except Exception:
+            pass
 
     def _check(self, *extra):
         self.stats.queries += 1
@@ -134,6 +221,13 @@ class Engine:
             return True
         if z3.is_false(cond):
             return False
+        try:
+            fd = self._ivl_decide(cond)
+        except Exception:
+            fd = None
+        if fd is not None:
+            self.fast_decisions += 1
+            return fd
         i = len(self.trace)
         if i < len(self.prefix):
             d = self.prefix[i]
@@ -788,6 +882,20 @@ def sym(name, lo=None, hi=None):
     if getattr(ENG, "concrete", False):
         return ConcInt(ENG.model.eval(v, model_completion=True).as_long())
     return SymInt(v)
+
+
+def sym_bv(name, width=32, lo=0, hi=None):
+    """symbolic int backed by a bit-vector variable (unsigned value): Int2BV(BV2Int(x)) folds back to x, which keeps
+    queries about emitted IR constants in pure bit-vector logic.  Returns (proxy, bitvector term)."""
+    bv = z3.BitVec(name, width)
+    t = z3.BV2Int(bv, False)
+    if lo is not None:
+        eng().assume(t >= lo)
+    if hi is not None:
+        eng().assume(t <= hi)
+    if getattr(ENG, "concrete", False):
+        return ConcInt(ENG.model.eval(t, model_completion=True).as_long()), bv
+    return SymInt(t), bv
 
 
 def is_sym(x):
